@@ -362,6 +362,7 @@ def run(chk, ctx) -> None:
     from .cover import flag_verifiers
     flag_verifiers(chk, ctx)
     _phase_check_first(chk, ctx)
+    _refusals_in_verifier(chk, ctx, disc)
 
 
 PLAYER_QUEUES = ('actor_indices', 'showdown_indices')
@@ -398,6 +399,25 @@ def _applies_to(chk, ctx, disc) -> None:
         chk.ob('C08.applies_to', f'State.{op}', bad is None, ctx.loc(of, bad[0].node) if bad else of.loc,
                'the player an explicit index refers to is the player the operation is applied to', got=bad[1] if bad else 'verified player throughout')
     chk.floor('C08.applies_to', 7)
+
+
+def _refusals_in_verifier(chk, ctx, disc) -> None:
+    """an operation refuses nothing itself: every ``raise`` and every ``warn(...)`` (an error under warnings-as-errors) belongs to
+    the verifier, which runs before the first write - a refusal inside the operation would come after the query said yes and,
+    placed after a write, would leave the state half-changed"""
+    ms = ctx.state.methods
+    for op in sorted(disc):
+        of = ms[op]
+        bad = []
+        for n in walk_no_nested(of.node):
+            if isinstance(n, ast.Raise):
+                bad.append(n)
+            if isinstance(n, ast.Call) and isinstance(n.func, ast.Name) and n.func.id == 'warn':
+                bad.append(n)
+        chk.ob('C08.refusals_in_verifier', f'State.{op}', not bad, ctx.loc(of, bad[0]) if bad else of.loc,
+               'the operation itself neither raises nor warns: all refusals are the verifier\'s (so the query, which runs the verifier, '
+               'answers for the operation, and a refused call changes nothing)', got=[stmt_text(b) for b in bad[:2]])
+    chk.floor('C08.refusals_in_verifier', 17)
 
 
 def _phase_check_first(chk, ctx, rule='C08.phase_check') -> None:
